@@ -50,6 +50,11 @@ func (h *HeadJ) String() string {
 //	sync    : barrier: every sent value consumed and one complete poll with the current height done
 //	suberr  : the subscription reports an error; the next N WatchStateUpdate attempts fail
 //	finfail : the next N FinalisedHeight polls fail
+//	waitfinerr : wait until a FinalisedHeight poll has failed (the client is in its retry loop)
+//	push       : (geth family) the node pushes Logs on the subscription; no barrier (the client may be stalled)
+//	waitfill   : (geth family) until the client's update channel holds min(N, 128) values
+//	hold       : (geth family) the harness waits N milliseconds (the client's event loop is kept busy meanwhile)
+//	drainwait  : (geth family) barrier: everything the node pushed has come out of the real forwarder
 //	finnotfound : (geth family) the node answers the next N finalized-header queries with null
 type Op struct {
 	Kind string `json:"kind"`
@@ -67,6 +72,9 @@ type Case struct {
 	// StoredL1 is the L1 block of the event Stored came from (oracle only; not visible to juno).
 	StoredL1 uint64 `json:"stored_l1,omitempty"`
 	Chunk    uint64 `json:"chunk"`
+	// DefaultChunk: l1.NewClient is called WITHOUT WithCatchUpChunkSize (the node's own configuration:
+	// defaultCatchUpChunkSize = 1000); Chunk is 1000 then, for the oracle's messages only.
+	DefaultChunk bool `json:"default_chunk,omitempty"`
 	Hist     []Log  `json:"hist"`   // what FilterStateUpdate serves (chain order)
 	Latest   uint64 `json:"latest"` // LatestHeight
 	Fin1     uint64 `json:"fin1"`   // FinalisedHeight read by catchUpL1HeadUpdates
@@ -79,7 +87,11 @@ type Case struct {
 	FilterFailAt    int  `json:"filter_fail_at"` // -1: never
 	Fin2Fails       int  `json:"fin2_fails,omitempty"`
 	WatchFails      int  `json:"watch_fails,omitempty"` // failed attempts of the first subscription
+	// TimeoutErrors: every scripted failure is a context.DeadlineExceeded (an expired call timeout)
+	TimeoutErrors bool `json:"timeout_errors,omitempty"`
 	PollMicros      int  `json:"poll_us"`
+	// ResubMicros: l1.WithResubscribeDelay (also the retry delay of finalisedHeight); 0 = 50 µs
+	ResubMicros int `json:"resub_us,omitempty"`
 
 	// Geth: the real l1.GethL1StateProvider (NewGethL1StateProvider -> abigen filterer ->
 	// forwardStateUpdates) is in the loop, fed by an in-process fake L1 JSON-RPC node over a
